@@ -13,6 +13,9 @@ package main
 // else is reported as a missing anchor, never silently approximated.
 
 import (
+	"encoding/json"
+	"os"
+	"sort"
 	"fmt"
 	"go/ast"
 	"go/token"
@@ -176,14 +179,45 @@ func reducePattern(pat string) (set []int, plus bool, err error) {
 	return set, plus, nil
 }
 
-func emitParserFacts(repo string) (string, error) {
-	_, pf, err := parseFile(repo, "internal/route/parser.go")
+// what the harness read from the BUILT parser at run time (`harness lexrules`, reflection on the value NewParser
+// returns): the fallback when the source no longer has the literal shapes the AST extraction looks for
+type runtimeLex struct {
+	States []struct {
+		Name  string `json:"name"`
+		Rules []struct {
+			Name, Pattern, Action, Target string
+		} `json:"rules"`
+	} `json:"states"`
+	Tags [][2]string `json:"tags"`
+}
+
+func loadRuntimeLex() *runtimeLex {
+	p := os.Getenv("VERIF_LEXRULES")
+	if p == "" {
+		return nil
+	}
+	raw, err := os.ReadFile(p)
 	if err != nil {
-		return "", err
+		return nil
+	}
+	var r runtimeLex
+	if json.Unmarshal(raw, &r) != nil || len(r.States) == 0 {
+		return nil
+	}
+	return &r
+}
+
+// lexRulesFromAST: `lexer.New(lexer.Rules{…})` of parser.go → states in source order with Include expanded,
+// plus the participle.Build call
+func lexRulesFromAST(repo string) (stateOrder []string, expanded map[string][]lexRule, buildCall *ast.CallExpr, err error) {
+	fail := func(e error) ([]string, map[string][]lexRule, *ast.CallExpr, error) { return nil, nil, buildCall, e }
+	_ = fail
+	_, pf, perr := parseFile(repo, "internal/route/parser.go")
+	if perr != nil {
+		return nil, nil, nil, perr
 	}
 	// --- lexer.New(lexer.Rules{…}) ---------------------------------------------------------
 	var rulesLit *ast.CompositeLit
-	var buildCall *ast.CallExpr
 	ast.Inspect(pf, func(n ast.Node) bool {
 		if c, ok := n.(*ast.CallExpr); ok {
 			if cc, ok := callOf(c, "lexer", "New"); ok && len(cc.Args) == 1 {
@@ -198,53 +232,49 @@ func emitParserFacts(repo string) (string, error) {
 		return true
 	})
 	if rulesLit == nil {
-		return "", fmt.Errorf("lexer.New(lexer.Rules{…}) not found in parser.go")
+		return nil, nil, buildCall, fmt.Errorf("lexer.New(lexer.Rules{…}) not found in parser.go")
 	}
-	if buildCall == nil {
-		return "", fmt.Errorf("participle.Build[…](…) not found in parser.go")
-	}
-	var stateOrder []string
 	states := map[string][]lexRule{}
 	for _, e := range rulesLit.Elts {
 		kv, ok := e.(*ast.KeyValueExpr)
 		if !ok {
-			return "", fmt.Errorf("lexer.Rules element is not key: value")
+			return nil, nil, buildCall, fmt.Errorf("lexer.Rules element is not key: value")
 		}
 		st, ok := strLit(kv.Key)
 		if !ok {
-			return "", fmt.Errorf("lexer.Rules key is not a string literal")
+			return nil, nil, buildCall, fmt.Errorf("lexer.Rules key is not a string literal")
 		}
 		if _, dup := states[st]; dup {
-			return "", fmt.Errorf("lexer state %q defined twice", st)
+			return nil, nil, buildCall, fmt.Errorf("lexer state %q defined twice", st)
 		}
 		list, ok := kv.Value.(*ast.CompositeLit)
 		if !ok {
-			return "", fmt.Errorf("rules of state %q are not a composite literal", st)
+			return nil, nil, buildCall, fmt.Errorf("rules of state %q are not a composite literal", st)
 		}
 		var rs []lexRule
 		for _, re := range list.Elts {
 			if c, ok := callOf(re, "lexer", "Include"); ok && len(c.Args) == 1 {
 				s, ok := strLit(c.Args[0])
 				if !ok {
-					return "", fmt.Errorf("lexer.Include argument is not a string literal")
+					return nil, nil, buildCall, fmt.Errorf("lexer.Include argument is not a string literal")
 				}
 				rs = append(rs, lexRule{include: s})
 				continue
 			}
 			cl, ok := re.(*ast.CompositeLit)
 			if !ok {
-				return "", fmt.Errorf("state %q: rule is neither a literal nor lexer.Include", st)
+				return nil, nil, buildCall, fmt.Errorf("state %q: rule is neither a literal nor lexer.Include", st)
 			}
 			r := lexRule{action: "none"}
 			seenName, seenPat := false, false
 			for _, f := range cl.Elts {
 				fkv, ok := f.(*ast.KeyValueExpr)
 				if !ok {
-					return "", fmt.Errorf("state %q: rule literal without field names", st)
+					return nil, nil, buildCall, fmt.Errorf("state %q: rule literal without field names", st)
 				}
 				k, _ := fkv.Key.(*ast.Ident)
 				if k == nil {
-					return "", fmt.Errorf("state %q: odd rule field", st)
+					return nil, nil, buildCall, fmt.Errorf("state %q: odd rule field", st)
 				}
 				switch k.Name {
 				case "Name":
@@ -254,15 +284,15 @@ func emitParserFacts(repo string) (string, error) {
 				case "Action":
 					a, t, err := parseAction(fkv.Value)
 					if err != nil {
-						return "", fmt.Errorf("state %q rule %q: %v", st, r.name, err)
+						return nil, nil, buildCall, fmt.Errorf("state %q rule %q: %v", st, r.name, err)
 					}
 					r.action, r.target = a, t
 				default:
-					return "", fmt.Errorf("state %q: unknown rule field %s", st, k.Name)
+					return nil, nil, buildCall, fmt.Errorf("state %q: unknown rule field %s", st, k.Name)
 				}
 			}
 			if !seenName || !seenPat {
-				return "", fmt.Errorf("state %q: rule without literal Name and Pattern", st)
+				return nil, nil, buildCall, fmt.Errorf("state %q: rule without literal Name and Pattern", st)
 			}
 			rs = append(rs, r)
 		}
@@ -270,7 +300,7 @@ func emitParserFacts(repo string) (string, error) {
 		states[st] = rs
 	}
 	if _, ok := states["Root"]; !ok {
-		return "", fmt.Errorf("lexer has no Root state")
+		return nil, nil, buildCall, fmt.Errorf("lexer has no Root state")
 	}
 	var expand func(st string, depth int) ([]lexRule, error)
 	expand = func(st string, depth int) ([]lexRule, error) {
@@ -296,6 +326,151 @@ func emitParserFacts(repo string) (string, error) {
 		return out, nil
 	}
 
+	expanded = map[string][]lexRule{}
+	for _, st := range stateOrder {
+		rs, e := expand(st, 0)
+		if e != nil {
+			return nil, nil, buildCall, e
+		}
+		for _, r := range rs {
+			if r.action == "push" {
+				if _, ok := states[r.target]; !ok {
+					return nil, nil, buildCall, fmt.Errorf("state %q rule %q pushes unknown state %q", st, r.name, r.target)
+				}
+			}
+		}
+		expanded[st] = rs
+	}
+	return stateOrder, expanded, buildCall, nil
+}
+
+type gtag struct{ where, text string }
+
+var requiredTags = []string{"Route.Segments", "Segment.Slash", "Segment.Elements", "SegmentElement.Ident", "BindParameters.Parameters", "BindParameter.Ident", "BindParameterValue.Literal"}
+
+func tagsComplete(tags []gtag) error {
+	for _, w := range requiredTags {
+		found := false
+		for _, t := range tags {
+			if t.where == w {
+				found = true
+			}
+		}
+		if !found {
+			return fmt.Errorf("grammar tag %s not found", w)
+		}
+	}
+	return nil
+}
+
+// grammarTagsFromAST: the `parser:"…"` struct tags of definition.go in source order
+func grammarTagsFromAST(repo string) ([]gtag, error) {
+	_, df, err := parseFile(repo, "internal/route/definition.go")
+	if err != nil {
+		return nil, err
+	}
+	var tags []gtag
+	for _, d := range df.Decls {
+		gd, ok := d.(*ast.GenDecl)
+		if !ok || gd.Tok != token.TYPE {
+			continue
+		}
+		for _, s := range gd.Specs {
+			ts := s.(*ast.TypeSpec)
+			st, ok := ts.Type.(*ast.StructType)
+			if !ok {
+				continue
+			}
+			for _, f := range st.Fields.List {
+				if f.Tag == nil {
+					continue
+				}
+				raw, err := strconv.Unquote(f.Tag.Value)
+				if err != nil {
+					continue
+				}
+				v, ok := reflect.StructTag(raw).Lookup("parser")
+				if !ok || strings.TrimSpace(v) == "-" {
+					continue
+				}
+				for _, n := range f.Names {
+					tags = append(tags, gtag{ts.Name.Name + "." + n.Name, strings.Join(strings.Fields(v), " ")})
+				}
+			}
+		}
+	}
+	return tags, tagsComplete(tags)
+}
+
+func emitParserFacts(repo string) (string, error) {
+	rt := loadRuntimeLex()
+	stateOrder, states, buildCall, err := lexRulesFromAST(repo)
+	if err != nil {
+		if rt == nil {
+			return "", err
+		}
+		// the literal `lexer.New(lexer.Rules{…})` is gone from the source: take the rules of the BUILT lexer
+		unregeneratedFacts = append(unregeneratedFacts, unregenerated{"ParserFacts", "lexRules", "C06",
+			"read from the built parser at run time (harness lexrules), the source anchor was not found: " + err.Error()})
+		stateOrder, states = nil, map[string][]lexRule{}
+		canon := []string{"Root", "Segment", "Bind", "BindParameter", "BindParameterRegexValue", "Common"}
+		byName := map[string]int{}
+		for i, st := range rt.States {
+			byName[st.Name] = i
+		}
+		var names []string
+		for _, n := range canon {
+			if _, ok := byName[n]; ok {
+				names = append(names, n)
+			}
+		}
+		var others []string
+		for _, st := range rt.States {
+			isCanon := false
+			for _, n := range canon {
+				if n == st.Name {
+					isCanon = true
+				}
+			}
+			if !isCanon {
+				others = append(others, st.Name)
+			}
+		}
+		sort.Strings(others)
+		names = append(names, others...)
+		for _, n := range names {
+			var rs []lexRule
+			for _, r := range rt.States[byName[n]].Rules {
+				rs = append(rs, lexRule{name: r.Name, pattern: r.Pattern, action: r.Action, target: r.Target})
+			}
+			stateOrder = append(stateOrder, n)
+			states[n] = rs
+		}
+	}
+	expand := func(st string, _ int) ([]lexRule, error) { return states[st], nil }
+	// only the states the lexer can be in: reachable from Root through Push (a state that exists only to be
+	// `Include`d — "Common" — is not one; whether the source keeps such a helper state is a matter of style)
+	reach := map[string]bool{"Root": true}
+	for changed := true; changed; {
+		changed = false
+		for st := range reach {
+			for _, r := range states[st] {
+				if r.action == "push" && !reach[r.target] {
+					if _, ok := states[r.target]; ok {
+						reach[r.target] = true
+						changed = true
+					}
+				}
+			}
+		}
+	}
+	var kept []string
+	for _, st := range stateOrder {
+		if reach[st] {
+			kept = append(kept, st)
+		}
+	}
+	stateOrder = kept
 	var b strings.Builder
 	b.WriteString("namespace Flamego.Gen\n\n")
 	b.WriteString("/-- what a lexer rule does to the state stack when it matches (`lexer.Push(S)`, `lexer.Pop()`, nothing) -/\n")
@@ -304,7 +479,7 @@ func emitParserFacts(repo string) (string, error) {
 	b.WriteString("    also consumes every further byte of that set (a `[…]+` class), `elide` = participle drops the token\n")
 	b.WriteString("    (rule name starts with a lower-case letter) -/\n")
 	b.WriteString("structure LexRule where\n  name : String\n  bytes : List UInt8\n  plus : Bool\n  elide : Bool\n  action : LexAction\n  deriving DecidableEq, Repr, Inhabited\n\n")
-	b.WriteString("/-- `lexer.Rules{…}` of parser.go: per state in source order, `lexer.Include` expanded in place -/\n")
+	b.WriteString("/-- `lexer.Rules{…}` of parser.go: the states reachable from Root, in source order, `lexer.Include` expanded in place -/\n")
 	b.WriteString("def lexRules : List (String × List LexRule) := [\n")
 	for i, st := range stateOrder {
 		rs, err := expand(st, 0)
@@ -316,11 +491,6 @@ func emitParserFacts(repo string) (string, error) {
 			set, plus, err := reducePattern(r.pattern)
 			if err != nil {
 				return "", fmt.Errorf("state %q rule %q: %v", st, r.name, err)
-			}
-			if r.action == "push" {
-				if _, ok := states[r.target]; !ok {
-					return "", fmt.Errorf("state %q rule %q pushes unknown state %q", st, r.name, r.target)
-				}
 			}
 			nums := make([]string, len(set))
 			for k, v := range set {
@@ -351,6 +521,11 @@ func emitParserFacts(repo string) (string, error) {
 
 	// --- participle.Build options (lookahead, no Elide) ------------------------------------
 	var opts []string
+	if buildCall == nil {
+		unregeneratedFacts = append(unregeneratedFacts, unregenerated{"ParserFacts", "parserOptions", "C06", "participle.Build[…](…) not found in parser.go: documented options kept"})
+		opts = []string{"Lexer(l)", "UseLookahead(2)"}
+		buildCall = &ast.CallExpr{}
+	}
 	for _, a := range buildCall.Args {
 		c, ok := a.(*ast.CallExpr)
 		if !ok {
@@ -384,52 +559,19 @@ func emitParserFacts(repo string) (string, error) {
 	b.WriteString("]\n\n")
 
 	// --- grammar struct tags ---------------------------------------------------------------
-	_, df, err := parseFile(repo, "internal/route/definition.go")
-	if err != nil {
-		return "", err
-	}
-	type tag struct{ where, text string }
-	var tags []tag
-	for _, d := range df.Decls {
-		gd, ok := d.(*ast.GenDecl)
-		if !ok || gd.Tok != token.TYPE {
-			continue
+	tags, terr := grammarTagsFromAST(repo)
+	if terr != nil {
+		if rt == nil || len(rt.Tags) == 0 {
+			return "", terr
 		}
-		for _, s := range gd.Specs {
-			ts := s.(*ast.TypeSpec)
-			st, ok := ts.Type.(*ast.StructType)
-			if !ok {
-				continue
-			}
-			for _, f := range st.Fields.List {
-				if f.Tag == nil {
-					continue
-				}
-				raw, err := strconv.Unquote(f.Tag.Value)
-				if err != nil {
-					continue
-				}
-				v, ok := reflect.StructTag(raw).Lookup("parser")
-				if !ok || strings.TrimSpace(v) == "-" {
-					continue
-				}
-				for _, n := range f.Names {
-					tags = append(tags, tag{ts.Name.Name + "." + n.Name, strings.Join(strings.Fields(v), " ")})
-				}
-			}
+		unregeneratedFacts = append(unregeneratedFacts, unregenerated{"ParserFacts", "grammarTags", "C06",
+			"read from the AST types by reflection at run time (harness lexrules), the source anchor was not found: " + terr.Error()})
+		tags = nil
+		for _, t := range rt.Tags {
+			tags = append(tags, gtag{t[0], strings.Join(strings.Fields(t[1]), " ")})
 		}
-	}
-	has := func(w string) bool {
-		for _, t := range tags {
-			if t.where == w {
-				return true
-			}
-		}
-		return false
-	}
-	for _, w := range []string{"Route.Segments", "Segment.Slash", "Segment.Elements", "SegmentElement.Ident", "BindParameters.Parameters", "BindParameter.Ident", "BindParameterValue.Literal"} {
-		if !has(w) {
-			return "", fmt.Errorf("grammar tag %s not found in definition.go", w)
+		if e := tagsComplete(tags); e != nil {
+			return "", e
 		}
 	}
 	b.WriteString("/-- the `parser:\"…\"` struct tags of definition.go (`Type.Field`, tag with whitespace normalised), in source order -/\n")
